@@ -226,28 +226,20 @@ Theorem C14_last_mode_rule : forall a n fixed, drops_last a = true -> NoDup fixe
 Proof. exact last_mode_updated. Qed.
 Print Assumptions C14_last_mode_rule.
 
-(* fixing every mode returns the initialisation: parafac's shortcut -- which recognises ONLY the list written in increasing
-   order (`fixed_modes == list(range(ndim))`); definitional in the model ... *)
-Theorem C14_all_fixed_sorted_shortcut : forall (M W X : Type) upd stop normf pre pre_on post ls_on ls_accept lsf lsw lsx a n budget tol (s : st M W X),
-  shortcut a = true -> run upd stop normf false pre pre_on post ls_on ls_accept lsf lsw lsx a n (seq 0 n) budget tol s = Ok s.
+(* fixing every mode returns the initialisation: parafac's shortcut, for ANY list naming exactly the modes 0..n-1 -- any order,
+   repetitions allowed (set comparison since commit adc0083), every budget, option and hook ... *)
+Theorem C14_all_fixed_shortcut : forall (M W X : Type) upd stop normf pre pre_on post ls_on ls_accept lsf lsw lsx a n fixed budget tol (s : st M W X),
+  shortcut a = true -> (forall m, m < n -> In m fixed) -> (forall m, In m fixed -> m < n) ->
+  run upd stop normf false pre pre_on post ls_on ls_accept lsf lsw lsx a n fixed budget tol s = Ok s.
 Proof. exact @run_all_fixed_shortcut. Qed.
-Print Assumptions C14_all_fixed_sorted_shortcut.
+Print Assumptions C14_all_fixed_shortcut.
 
-(* ... any other duplicate-free list naming every mode leaves exactly the last mode to the algorithms that un-fix it
-   (parafac included when the list is not in increasing order) ... *)
+(* ... the drivers that document "the last mode cannot be fixed" have no shortcut: a duplicate-free list naming every mode
+   leaves them exactly the last mode to update ... *)
 Theorem C14_full_list_leaves_last_mode : forall a n fixed, drops_last a = true -> NoDup fixed -> 0 < n ->
   (forall m, m < n -> In m fixed) -> modes_list a n fixed = [n - 1].
 Proof. exact full_list_leaves_last. Qed.
 Print Assumptions C14_full_list_leaves_last_mode.
-
-(* ... so parafac(fixed_modes=[1, 0, 2]) updates mode 2 although every mode was declared fixed (genuine defect, known finding,
-   candidate repair build/fix_candidates/C14_parafac_all_fixed_any_order.diff) *)
-Theorem C14_all_fixed_permuted_refuted : exists (s s' : st (list nat) unit unit),
-  run (fun it m s => (nth m (facs s) [] ++ [it], tt)) (fun _ _ => false) (fun s => s) false (fun _ m s => nth m (facs s) []) (fun _ => false)
-      (fun _ _ => tt) (fun _ => false) (fun _ _ _ => false) (fun _ _ l c => c) (fun _ _ l c => c) (fun _ _ _ => tt)
-      Parafac 3 [1; 0; 2] 1 true s = Ok s' /\ NoDup [1; 0; 2] /\ (forall m, m < 3 -> In m [1; 0; 2]) /\ facs s' <> facs s.
-Proof. exact all_fixed_permuted_updates. Qed.
-Print Assumptions C14_all_fixed_permuted_refuted.
 
 (* ... the algorithms without a shortcut can be left without a mode to update only by a request that repeats the last
    mode; then, IF the call returns (it raises when it needs the last MTTKRP), it returns the initialisation ... *)
@@ -458,6 +450,9 @@ Example C14_nonvacuous_skeleton :
   (* orthogonalise in sweep 0 rewrites the free factors only; the other algorithms have no such hook *)
   ex_run (fun it => Nat.eqb it 0) (fun _ => false) Parafac 3 [1] 2 true = Ok (mkst tt [[100;0;1]; []; [100;0;1]] tt) /\
   ex_run (fun it => Nat.eqb it 0) (fun _ => true) NNParafac 3 [1] 2 true = Ok (mkst tt [[0;1]; []; [0;1]] tt) /\
+  (* every mode named, in any order or twice: parafac returns the start; the others are left with the last mode *)
+  ex_run (fun _ => true) (fun _ => true) Parafac 3 [1;0;2;2] 2 true = Ok (mkst tt [[];[];[]] tt) /\
+  modes_list NNParafac 3 [1;0;2] = [2] /\
   modes_list Parafac 3 [0;2] = [1;2] /\ modes_list NNHals 3 [0;2] = [1] /\ modes_list Parafac 3 [2;2] = [0;1] /\
   (* every mode fixed: HALS-CP returns the start for a positive budget; a request repeating the last mode leaves
      constrained_parafac without a mode and it raises *)
